@@ -47,6 +47,19 @@ def _cmp(left, op, right, subst, env):
 PURE_FUNCS = {}
 
 
+class _None(object):
+  """The folded value of the literal None (the Python None means "not constant" in fold_numeric)."""
+
+  def __bool__(self):
+    return False
+
+  def __repr__(self):
+    return 'None'
+
+
+NONE = _None()
+
+
 def fold_numeric(expr, subst, _depth=0):
   """Value of `expr` once every atom of `subst` with a constant value is replaced by it: only literals, module constants,
   + - * / // % ** & | ^ << >>, abs min max int float, comparisons, and / or / not (with Python's operand-returning semantics),
@@ -70,6 +83,8 @@ def fold_numeric(expr, subst, _depth=0):
       return k if k.denominator != 1 else int(k)
     if isinstance(n, ast.Constant) and isinstance(n.value, bool):
       return n.value
+    if isinstance(n, ast.Constant) and n.value is None:
+      return NONE
     c = U.const_value(n)
     if c is not None:
       return Fraction(str(c)) if isinstance(c, float) else c
@@ -113,9 +128,20 @@ def fold_numeric(expr, subst, _depth=0):
           if inside != isinstance(o, ast.In):
             return False
           continue
+        if isinstance(o, (ast.Is, ast.IsNot)):
+          nxt = ev(cpr, env, depth)
+          same = (vals[-1] is NONE) and (nxt is NONE)
+          if not ((vals[-1] is NONE) or (nxt is NONE)):
+            raise ValueError      # identity of two values that are not None is not folded
+          if same != isinstance(o, ast.Is):
+            return False
+          vals.append(nxt)
+          continue
         if type(o) not in cmps:
           raise ValueError
         nxt = ev(cpr, env, depth)
+        if vals[-1] is NONE or nxt is NONE:
+          raise ValueError
         if not cmps[type(o)](vals[-1], nxt):
           return False
         vals.append(nxt)
